@@ -308,6 +308,13 @@ def constraint_components(ctx):
         comps.append(Comp("PAPRConstraint", "constraints:PAPRConstraint", PAPRConstraint(max_papr=lim), pm, float_out=True, grouping=False, cfg={"dtype": "real", "max_papr": lim, "members": "peaky+converged"}))
         pc = [torch.complex(a, b) for a, b in zip(pm, pm[3:] + pm[:3])]
         comps.append(Comp("PAPRConstraint", "constraints:PAPRConstraint", PAPRConstraint(max_papr=lim), pc, float_out=True, grouping=False, cfg={"dtype": "complex", "max_papr": lim, "members": "peaky+converged"}))
+    # members around the zero-signal guard (power < 1e-10 -> uniform replacement): total power / average power just below and
+    # just above it, next to ordinary members - the guard is per member, whatever else the batch holds
+    wn = 16
+    weak = [torch.full((wn,), a) * torch.tensor([(-1.0) ** i for i in range(wn)]) for a in (5e-6, 2e-6, 1.2e-5, 3e-5, 1e-7)] + [torch.zeros(wn), g(1)[:wn], g(1e-3)[:wn], g(50)[:wn]]
+    for nm, C in (("TotalPowerConstraint", TotalPowerConstraint(2.0)), ("AveragePowerConstraint", AveragePowerConstraint(0.5))):
+        comps.append(Comp(nm, "constraints:" + nm, C, weak, float_out=True, grouping=False, cfg={"dtype": "real", "members": "around the zero-signal guard"}))
+        comps.append(Comp(nm, "constraints:" + nm, C, [torch.complex(a, b) for a, b in zip(weak, weak[1:] + weak[:1])], float_out=True, grouping=False, cfg={"dtype": "complex", "members": "around the zero-signal guard"}))
     am = [m.reshape(3, 8) for m in members]
     comps.append(Comp("PerAntennaPowerConstraint", "constraints:PerAntennaPowerConstraint", PerAntennaPowerConstraint(uniform_power=0.7), am, item_dims=2, float_out=True, cfg={"item_shape": [3, 8]}))
     for nm, C in (("TotalPowerConstraint", TotalPowerConstraint(2.0)), ("AveragePowerConstraint", AveragePowerConstraint(0.5)), ("PAPRConstraint", PAPRConstraint(max_papr=3.0))):
